@@ -38,40 +38,45 @@ def c06_runs(tier):
             params.update(fq=fq, t0=t0)
         runs.append(McRun(BIN, 'nest', params, bound=bound, mode=mode, opts=WP0, budget=budget))
 
-    add(0, 'TCLFPB', ANY, 0, 0)
+    # budgets add up to about the tier budget, so that on an overloaded machine every run is time-boxed (reported as not
+    # exhaustive) instead of the tail of the matrix being skipped; on an idle machine most runs need a tenth of theirs
+    add(0, 'TCLFPB', ANY, 0, 0, budget=10)
     if tier == 'quick':
         # one worker, one outer task (outer size N): every inner kind x the 12 variants
         for kind in KINDS:
-            add(1, kind, ANY, 0, 1, budget=20)
+            add(1, kind, ANY, 0, 1, budget=15)
         # one worker, two outer tasks (outer size N+1): every pair containing a steal-ring user (C or F)
         for prog in _multisets(KINDS, 2):
             if 'C' in prog or 'F' in prog:
-                add(1, prog, 'C', 1, 1, t0=ANY, budget=12)
-        add(1, 'CF', 'C', 1, 1, t0='i', mode='tsan', budget=20)
-        add(1, 'TL', 'T', 1, 1, mode='asan', budget=20)
+                add(1, prog, 'C', 1, 1, t0=ANY, budget=8)
+        add(1, 'CF', 'C', 1, 1, t0='i', mode='tsan', budget=15)
+        add(1, 'TL', 'T', 1, 1, mode='asan', budget=15)
         # two workers with N and N+1 outer tasks on the heavy (steal-ring) outer set, T0 waiting and T0 idle (time-boxed)
         for prog in ('CC', 'CF', 'CCC'):
-            add(2, prog, 'C', 1, 1, t0=ANY, budget=15)
+            add(2, prog, 'C', 1, 1, t0=ANY, budget=12)
     else:
-        for size in (1, 2):
-            for prog in _multisets(KINDS, size):
-                add(1, prog, ANY, 0, 1, budget=25)
-        add(1, 'CF', 'C', 1, 1, t0='i', mode='tsan', budget=50)
-        add(1, 'TL', 'T', 1, 1, mode='asan', budget=50)
+        for prog in _multisets(KINDS, 1):
+            add(1, prog, ANY, 0, 1, budget=20)
+        # two workers, N outer tasks: all pairs over {T,C,L,F}, T0 waiting and idle
+        for prog in _multisets('TCLF', 2):
+            add(2, prog, 'C', 1, 1, t0=ANY, budget=25)
+        add(1, 'CF', 'C', 1, 1, t0='i', mode='tsan', budget=40)
+        add(1, 'TL', 'T', 1, 1, mode='asan', budget=40)
         # bound 2 on the smallest: one worker, one or two outer tasks
         for prog in ('T', 'C', 'L', 'F', 'CC', 'CF'):
-            add(1, prog, 'C', 1, 2, t0=ANY, budget=40)
-        for prog in _multisets('TCLF', 2):
-            add(2, prog, 'C', 1, 1, t0=ANY, budget=30)
-        for prog in ('CC', 'CF', 'FF'):
-            add(2, prog, 'C', 3, 1, t0='i', budget=20)
-            add(2, prog, 'T', 1, 1, t0='i', budget=20)
+            add(1, prog, 'C', 1, 2, t0=ANY, budget=30)
+        for prog in _multisets(KINDS, 2):
+            add(1, prog, ANY, 0, 1, budget=20)
+        # two workers, N+1 outer tasks and the remaining shapes, the pool on its own (T0 idle)
         for prog in _multisets('TCL', 3) + ['CCF', 'CFF']:
-            add(2, prog, 'C', 1, 1, t0='i', budget=15)
+            add(2, prog, 'C', 1, 1, t0='i', budget=8)
+        for prog in ('CC', 'CF', 'FF'):
+            add(2, prog, 'C', 3, 1, t0='i', budget=8)
+            add(2, prog, 'T', 1, 1, t0='i', budget=8)
         for prog in ('PP', 'BB', 'CP', 'CB', 'FP'):
-            add(2, prog, 'C', 1, 1, t0='i', budget=15)
+            add(2, prog, 'C', 1, 1, t0='i', budget=8)
         for prog in ('CC', 'TC'):
-            add(2, prog, 'C', 1, 1, t0='i', k=2, budget=15)
+            add(2, prog, 'C', 1, 1, t0='i', k=2, budget=8)
     return runs
 
 
@@ -98,14 +103,14 @@ def c16_runs(tier):
         seen.add(key)
         runs.append(McRun(BIN, 'pinvoke', dict(n=n, shape=shape, a=a, d=d, mult=mult, cost=cost), bound=bound, mode=mode, budget=budget))
 
-    add(0, ANY, 0, 0, ANY, ANY, 0)  # zero-thread pool: 9 shapes x 2 multipliers x 2 costs, one execution each
+    add(0, ANY, 0, 0, ANY, ANY, 0, budget=10)  # zero-thread pool: 9 shapes x 2 multipliers x 2 costs, one execution each
     if tier == 'quick':
         for shape, a, d in SHAPES:
-            add(1, shape, a, d, ANY, ANY, 1, budget=20)
-        add(1, 'bin', 2, 2, 1, 'h', 1, mode='tsan', budget=25)
-        add(1, 'flat', 3, 1, 4, 'l', 1, mode='asan', budget=25)
+            add(1, shape, a, d, ANY, ANY, 1, budget=15)
+        add(1, 'bin', 2, 2, 1, 'h', 1, mode='tsan', budget=20)
+        add(1, 'flat', 3, 1, 4, 'l', 1, mode='asan', budget=20)
         for shape, a, d in (('flat', 2, 1), ('flat', 3, 1), ('bin', 2, 2), ('chain', 2, 4)):
-            add(2, shape, a, d, ANY, 'h', 1, budget=25)
+            add(2, shape, a, d, ANY, 'h', 1, budget=15)
     else:
         for shape, a, d in SHAPES:
             add(1, shape, a, d, ANY, ANY, 2, budget=45)
